@@ -1,0 +1,166 @@
+//! Verification hooks, compiled only with the `verif-hooks` feature.
+//!
+//! Every hook is a pass-through until a harness installs a [`Hooks`] table, so a build with the
+//! feature enabled but no table installed behaves exactly like a build without it.
+//!
+//! What is observable through the table:
+//!
+//! - the three allocator entry points the crate uses (`alloc`, `realloc`, `dealloc`),
+//! - every atomic operation on a reference count and every fence, with its ordering and the
+//!   value it returned,
+//! - every raw read / write of text bytes the crate performs on a buffer (`note_*`),
+//! - a scheduling point ([`Event::Pre`]) in front of each of the above.
+use core::alloc::Layout;
+use core::sync::atomic::{self, AtomicPtr, Ordering};
+
+/// What is about to happen at a scheduling point.
+#[derive(Debug, Clone, Copy, PartialEq, Eq)]
+pub enum Site {
+    Atomic,
+    Fence,
+    Access,
+}
+
+#[derive(Debug, Clone, Copy)]
+pub enum Event {
+    /// About to perform an atomic operation / fence / buffer access (scheduling point).
+    Pre(Site),
+    FetchAdd { addr: usize, val: usize, order: Ordering, prev: usize },
+    FetchSub { addr: usize, val: usize, order: Ordering, prev: usize },
+    Load { addr: usize, order: Ordering, val: usize },
+    Fence { order: Ordering },
+    Read { ptr: usize, len: usize },
+    Write { ptr: usize, len: usize },
+}
+
+pub struct Hooks {
+    pub alloc: unsafe fn(Layout) -> *mut u8,
+    pub realloc: unsafe fn(*mut u8, Layout, usize) -> *mut u8,
+    pub dealloc: unsafe fn(*mut u8, Layout),
+    pub event: fn(Event),
+}
+
+static HOOKS: AtomicPtr<Hooks> = AtomicPtr::new(core::ptr::null_mut());
+
+pub fn install(hooks: &'static Hooks) {
+    HOOKS.store(hooks as *const Hooks as *mut Hooks, Ordering::SeqCst);
+}
+
+pub fn uninstall() {
+    HOOKS.store(core::ptr::null_mut(), Ordering::SeqCst);
+}
+
+#[inline]
+fn hooks() -> Option<&'static Hooks> {
+    let p = HOOKS.load(Ordering::Acquire);
+    if p.is_null() { None } else { Some(unsafe { &*p }) }
+}
+
+#[inline]
+fn emit(e: Event) {
+    if let Some(h) = hooks() {
+        (h.event)(e)
+    }
+}
+
+pub(crate) unsafe fn alloc(layout: Layout) -> *mut u8 {
+    match hooks() {
+        Some(h) => unsafe { (h.alloc)(layout) },
+        None => unsafe { alloc::alloc::alloc(layout) },
+    }
+}
+
+pub(crate) unsafe fn realloc(ptr: *mut u8, layout: Layout, new_size: usize) -> *mut u8 {
+    match hooks() {
+        Some(h) => unsafe { (h.realloc)(ptr, layout, new_size) },
+        None => unsafe { alloc::alloc::realloc(ptr, layout, new_size) },
+    }
+}
+
+pub(crate) unsafe fn dealloc(ptr: *mut u8, layout: Layout) {
+    match hooks() {
+        Some(h) => unsafe { (h.dealloc)(ptr, layout) },
+        None => unsafe { alloc::alloc::dealloc(ptr, layout) },
+    }
+}
+
+pub(crate) fn note_read(ptr: *const u8, len: usize) {
+    emit(Event::Pre(Site::Access));
+    emit(Event::Read { ptr: ptr as usize, len });
+}
+
+pub(crate) fn note_write(ptr: *const u8, len: usize) {
+    emit(Event::Pre(Site::Access));
+    emit(Event::Write { ptr: ptr as usize, len });
+}
+
+/// A copy of `len` bytes from `src` into a freshly allocated (still private) `dst`.
+pub(crate) fn note_copy(src: *const u8, dst: *const u8, len: usize) {
+    emit(Event::Pre(Site::Access));
+    emit(Event::Read { ptr: src as usize, len });
+    emit(Event::Write { ptr: dst as usize, len });
+}
+
+pub(crate) fn fence(order: Ordering) {
+    emit(Event::Pre(Site::Fence));
+    atomic::fence(order);
+    emit(Event::Fence { order });
+}
+
+#[repr(transparent)]
+pub(crate) struct AtomicUsize(atomic::AtomicUsize);
+
+impl AtomicUsize {
+    pub(crate) const fn new(v: usize) -> Self {
+        Self(atomic::AtomicUsize::new(v))
+    }
+
+    pub(crate) fn fetch_add(&self, val: usize, order: Ordering) -> usize {
+        emit(Event::Pre(Site::Atomic));
+        let prev = self.0.fetch_add(val, order);
+        emit(Event::FetchAdd { addr: self as *const _ as usize, val, order, prev });
+        prev
+    }
+
+    pub(crate) fn fetch_sub(&self, val: usize, order: Ordering) -> usize {
+        emit(Event::Pre(Site::Atomic));
+        let prev = self.0.fetch_sub(val, order);
+        emit(Event::FetchSub { addr: self as *const _ as usize, val, order, prev });
+        prev
+    }
+
+    pub(crate) fn load(&self, order: Ordering) -> usize {
+        emit(Event::Pre(Site::Atomic));
+        let val = self.0.load(order);
+        emit(Event::Load { addr: self as *const _ as usize, order, val });
+        val
+    }
+
+    /// Untraced read for observers.
+    pub(crate) fn peek(&self) -> usize {
+        self.0.load(Ordering::Relaxed)
+    }
+
+    /// Untraced write for fault injection (reference count close to overflow).
+    pub(crate) fn poke(&self, v: usize) {
+        self.0.store(v, Ordering::Relaxed)
+    }
+}
+
+impl crate::LeanString {
+    /// Current reference count of the heap buffer, if any (untraced).
+    pub fn __verif_refcount(&self) -> Option<usize> {
+        self.0.verif_refcount()
+    }
+
+    /// Overwrites the reference count of the heap buffer, if any (untraced, fault injection only).
+    pub fn __verif_poke_refcount(&self, v: usize) -> bool {
+        self.0.verif_poke_refcount(v)
+    }
+
+    /// The raw two words.
+    pub fn __verif_raw(&self) -> [u8; size_of::<crate::LeanString>()] {
+        // SAFETY: `LeanString` is plain old data of exactly that size.
+        unsafe { core::ptr::read(self as *const _ as *const _) }
+    }
+}
